@@ -26,9 +26,15 @@ func (k Keeper) BeginBlocker(ctx context.Context) error {
 			err = k.ExecuteStartedStatus(ctx, auction)
 		case types.AuctionStatusVesting:
 			err = k.ExecuteVestingStatus(ctx, auction)
+		case types.AuctionStatusFinished, types.AuctionStatusCancelled:
+			// nothing left to do for an auction that reached a terminal status
+			err = nil
 		default:
 			err = fmt.Errorf("invalid auction status %s", auction.GetStatus())
 		}
+		if err != nil {
+			return err
+		}
 	}
-	return err
+	return nil
 }
